@@ -809,3 +809,329 @@ Proof.
   rewrite E. rewrite set_dc_roundtrip by (apply (inv_dc _ _ _ I)).
   rewrite app_nil_r, rev_append_nil, rev_involutive. reflexivity.
 Qed.
+
+(* the shutdown pattern: every visited connection is removed.  Invariant of the
+   traversal relative to the state st0 at its start: the cells below the cursor
+   (qr, qc) have been emptied, everything else is untouched. *)
+Definition iterJ (st0 st : matst) (qr qc : Z) : Prop :=
+  m_dc st = true /\
+  (forall x y, cell st x y = if pltb x y qr qc then None else cell st0 x y) /\
+  (forall x, cnt st x = cnt st0 x - (if x <? qr then cnt st0 x else if x =? qr then Z.min qc (cnt st0 x) else 0)) /\
+  (forall x, row_nil st x = true <-> cnt st x = 0) /\
+  (forall fd, zget (m_f2g st) fd =
+              match zget (m_f2g st0) fd with
+              | Some g => if pltb (g_row g) (g_col g) qr qc then None else Some g
+              | None => None end) /\
+  m_heap st = m_heap st0 /\
+  m_row st = (if pltb 0 0 qr qc then 0 else m_row st0) /\
+  m_col st = (if pltb 0 0 qr qc then 0 else m_col st0).
+
+Lemma cnt0_bounds : forall st0 x, inv st0 -> 0 <= cnt st0 x <= COL.
+Proof.
+  intros st0 x I. rewrite (inv_cnt _ _ _ I). pose proof (inv_next _ _ _ I). unfold cnt_at. dif; lia.
+Qed.
+
+(* a cell is live iff its column is below the row's count *)
+Lemma live_iff_cnt : forall st0 x y, inv st0 -> 0 <= x -> 0 <= y < COL ->
+  (cell st0 x y <> None <-> y < cnt st0 x).
+Proof.
+  intros st0 x y I Hx Hy. rewrite (inv_live _ _ _ I), (inv_cnt _ _ _ I).
+  pose proof (inv_next _ _ _ I). unfold cnt_at, plt. dif; lia.
+Qed.
+
+Lemma f2g_in_range : forall st0 fd g, inv st0 -> zget (m_f2g st0) fd = Some g ->
+  0 <= g_row g < ROW /\ 0 <= g_col g < COL /\ g_col g < cnt st0 (g_row g).
+Proof.
+  intros st0 fd g I H. destruct (inv_f2g _ _ _ I _ _ H) as (_ & id & Hc & _).
+  pose proof (cell_some_live _ _ _ _ I Hc) as (A & B & C).
+  pose proof (inv_next _ _ _ I). splits; try lia.
+  - unfold plt in C. lia.
+  - apply live_iff_cnt; auto. congruence.
+Qed.
+
+Lemma iterJ_init : forall st0, inv st0 -> iterJ st0 (set_dc st0 true) 0 0.
+Proof.
+  intros st0 I. unfold iterJ. splits; try reflexivity.
+  - intros x y. autorewrite with mxv. destruct (pltb x y 0 0) eqn:E; [|reflexivity].
+    apply cell_none_out; auto. unfold pltb in E. lia.
+  - intros x. autorewrite with mxv. pose proof (cnt0_bounds st0 x I).
+    pose proof (inv_cnt _ _ _ I x) as C. unfold cnt_at in C. dif; lia.
+  - intros x. autorewrite with mxv. apply (inv_nil _ _ _ I).
+  - intros fd. fields. destruct (zget (m_f2g st0) fd) as [g|] eqn:E; [|reflexivity].
+    pose proof (f2g_in_range _ _ _ I E). replace (pltb (g_row g) (g_col g) 0 0) with false by (unfold pltb; lia).
+    reflexivity.
+Qed.
+
+(* moving the cursor over cells that are empty in st0 *)
+Lemma iterJ_shift : forall st0 st r c, inv st0 -> iterJ st0 st r c -> 0 <= r -> 0 <= c ->
+  cnt st0 r <= c -> iterJ st0 st (r + 1) 0.
+Proof.
+  intros st0 st r c I (Jdc & Jcell & Jcnt & Jnil & Jf & Jh & Jrow & Jcol) Hr Hc Hle.
+  pose proof (cnt0_bounds st0 r I) as Hb.
+  unfold iterJ. splits; auto.
+  - intros x y. rewrite Jcell.
+    destruct (pltb x y r c) eqn:E1, (pltb x y (r + 1) 0) eqn:E2; try reflexivity; unfold pltb in *.
+    + lia.
+    + symmetry. destruct (cell st0 x y) eqn:E; [|reflexivity]. exfalso.
+      pose proof (cell_some_live _ _ _ _ I E) as (A & B & _).
+      assert (x = r) by lia. subst x.
+      assert (y < cnt st0 r) by (apply live_iff_cnt; auto; congruence). lia.
+  - intros x. rewrite Jcnt. pose proof (cnt0_bounds st0 x I). difs; lia.
+  - intros fd. rewrite Jf. destruct (zget (m_f2g st0) fd) as [g|] eqn:E; [|reflexivity].
+    pose proof (f2g_in_range _ _ _ I E) as (A & B & C).
+    destruct (pltb (g_row g) (g_col g) r c) eqn:E1, (pltb (g_row g) (g_col g) (r + 1) 0) eqn:E2;
+      try reflexivity; unfold pltb in *; [lia|].
+    assert (g_row g = r) as Er by lia. rewrite Er in C. lia.
+  - rewrite Jrow. pose proof (inv_cnt _ _ _ I r) as C. pose proof (inv_next _ _ _ I). unfold cnt_at in C.
+    destruct (pltb 0 0 r c) eqn:E1, (pltb 0 0 (r + 1) 0) eqn:E2; try reflexivity; unfold pltb in *; try lia.
+    dif_in C; lia.
+  - rewrite Jcol. pose proof (inv_cnt _ _ _ I r) as C. pose proof (inv_next _ _ _ I). unfold cnt_at in C.
+    destruct (pltb 0 0 r c) eqn:E1, (pltb 0 0 (r + 1) 0) eqn:E2; try reflexivity; unfold pltb in *; try lia.
+    dif_in C; lia.
+Qed.
+
+Lemma pltb_self : forall r c, pltb r c r c = false.
+Proof. intros. unfold pltb. lia. Qed.
+
+Lemma visit_all_step : forall st0 st m k r c vis n,
+  inv st0 -> (forall fd, del_pred m k fd = true) -> iterJ st0 st r c -> 0 <= r -> 0 <= c < COL ->
+  exists st' n',
+    mx_visit ROW COL m k (-1) r (Ret (st, vis, n, false)) c =
+      Ret (st', olist (cell st0 r c) ++ vis, n', false) /\
+    iterJ st0 st' r (c + 1).
+Proof.
+  intros st0 st m k r c vis n I Hp J Hr Hc.
+  destruct J as (Jdc & Jcell & Jcnt & Jnil & Jf & Jh & Jrow & Jcol).
+  pose proof (cnt0_bounds st0 r I) as Hb.
+  unfold mx_visit. rewrite Jcell, pltb_self.
+  destruct (cell st0 r c) as [id|] eqn:E.
+  - (* a live connection: it is removed *)
+    destruct (inv_cell _ _ _ I _ _ _ E) as (fd & Hh & Hg).
+    assert (Hlive : c < cnt st0 r) by (apply live_iff_cnt; auto; congruence).
+    rewrite Jh, Hh. cbn [c_fd]. rewrite Hp.
+    unfold mx_del. rewrite Jh, Hh. cbn [c_gfd g_row g_col c_fd].
+    set (st2 := inc_count (set_f2g st (zdel (m_f2g st) fd)) r (-1)).
+    assert (Kr : cnt st r = cnt st0 r - c).
+    { rewrite Jcnt, Z.eqb_refl. replace (r <? r) with false by lia. lia. }
+    assert (K2 : forall x, cnt st2 x = if x =? r then cnt st r - 1 else cnt st x).
+    { intros. subst st2. autorewrite with mxv. replace (cnt st r + -1) with (cnt st r - 1) by lia. reflexivity. }
+    assert (Hnil : row_nil st r = false).
+    { destruct (row_nil st r) eqn:N; [|reflexivity]. apply Jnil in N. lia. }
+    assert (Hnext : forall s, m_row s = m_row st -> m_col s = m_col st ->
+              let s' := if (r <? m_row s) || (c <? m_col s) then set_next s r c else s in
+              m_row s' = (if pltb 0 0 r (c + 1) then 0 else m_row st0) /\
+              m_col s' = (if pltb 0 0 r (c + 1) then 0 else m_col st0) /\
+              (s' = s \/ s' = set_next s r c)).
+    { intros s Hs1 Hs2. cbn zeta. rewrite Hs1, Hs2, Jrow, Jcol.
+      pose proof (inv_live _ _ _ I r c) as Lv. rewrite E in Lv.
+      assert (plt r c (m_row st0) (m_col st0)) as Hplt by (apply Lv; congruence).
+      replace (pltb 0 0 r (c + 1)) with true by (unfold pltb; lia).
+      destruct (pltb 0 0 r c) eqn:P; unfold pltb in P.
+      - replace ((r <? 0) || (c <? 0)) with false by lia. rewrite Hs1, Hs2, Jrow, Jcol.
+        replace (pltb 0 0 r c) with true by (unfold pltb; lia). auto.
+      - assert (r = 0 /\ c = 0) as (-> & ->) by lia. unfold plt in Hplt.
+        replace ((0 <? m_row st0) || (0 <? m_col st0)) with true by lia. cbn. auto. }
+    unfold release_or_clear. rewrite K2, Z.eqb_refl.
+    destruct (cnt st r - 1 =? 0) eqn:EA.
+    + (* last connection of the row: the row slice is released *)
+      cbn [obind]. set (st3 := release_row st2 r).
+      destruct (Hnext st3) as (Nr & Nc & Nshape); [reflexivity..|].
+      set (st4 := if (r <? m_row st3) || (c <? m_col st3) then set_next st3 r c else st3) in *.
+      assert (Hdc4 : m_dc st4 = true) by (destruct Nshape as [->| ->]; exact Jdc).
+      rewrite Hdc4. cbn [orb]. rewrite keep_going_never. cbn [negb olist app].
+      eexists _, _. split; [reflexivity|].
+      assert (V : cnt st4 = cnt st3 /\ cell st4 = cell st3 /\ row_nil st4 = row_nil st3 /\
+                  m_f2g st4 = m_f2g st3 /\ m_heap st4 = m_heap st3)
+        by (destruct Nshape as [->| ->]; repeat split).
+      destruct V as (V1 & V2 & V3 & V4 & V5).
+      unfold iterJ. rewrite V1, V2, V3, V4, V5. splits; auto.
+      * intros x y. subst st3 st2. autorewrite with mxv. rewrite Jcell.
+        destruct (Z.eqb_spec x r) as [->|N].
+        -- destruct (pltb r y r (c + 1)) eqn:P; [reflexivity|].
+           replace (pltb r y r c) with false by (unfold pltb in *; lia).
+           symmetry. destruct (cell st0 r y) eqn:Ey; [|reflexivity]. exfalso.
+           pose proof (cell_some_live _ _ _ _ I Ey) as (A & B & _).
+           assert (y < cnt st0 r) by (apply live_iff_cnt; auto; congruence). unfold pltb in P. lia.
+        -- replace (pltb x y r (c + 1)) with (pltb x y r c) by (unfold pltb; lia). reflexivity.
+      * intros x. subst st3. autorewrite with mxv. rewrite K2. pose proof (cnt0_bounds st0 x I).
+        destruct (Z.eqb_spec x r) as [->|N]; [rewrite Kr; dif; lia|]. rewrite Jcnt. dif; lia.
+      * intros x. subst st3. autorewrite with mxv. rewrite K2.
+        destruct (Z.eqb_spec x r) as [->|N]; [lia|]. subst st2. autorewrite with mxv. apply Jnil.
+      * intros x. subst st3 st2. fields. rewrite zget_zdel, Jf.
+        destruct (Z.eqb_spec x fd) as [->|N].
+        -- rewrite Hg. cbn. replace (pltb r c r (c + 1)) with true by (unfold pltb; lia). reflexivity.
+        -- destruct (zget (m_f2g st0) x) as [g|] eqn:Eg; [|reflexivity].
+           destruct (pltb (g_row g) (g_col g) r c) eqn:P1, (pltb (g_row g) (g_col g) r (c + 1)) eqn:P2;
+             try reflexivity; unfold pltb in *; [lia|].
+           exfalso. destruct (inv_f2g _ _ _ I _ _ Eg) as (_ & id0 & Hc0 & Hh0).
+           assert (g_row g = r /\ g_col g = c) as (E1 & E2) by lia. rewrite E1, E2, E in Hc0.
+           inversion Hc0; subst id0. rewrite Hh in Hh0. inversion Hh0. congruence.
+    + (* other connections remain in the row: the cell is cleared *)
+      destruct (set_cell_ret st2 r c None) as (st3 & E3 & F3 & C3 & N3).
+      { subst st2. autorewrite with mxv. exact Hnil. }
+      rewrite E3. cbn [obind]. destruct F3 as (Fdc & Fcn & Frow & Fcol & Ff & Fh).
+      destruct (Hnext st3) as (Nr & Nc & Nshape); [rewrite ?Frow, ?Fcol; reflexivity..|].
+      set (st4 := if (r <? m_row st3) || (c <? m_col st3) then set_next st3 r c else st3) in *.
+      assert (Hdc4 : m_dc st4 = true) by (destruct Nshape as [->| ->]; fields; rewrite Fdc; exact Jdc).
+      rewrite Hdc4. cbn [orb]. rewrite keep_going_never. cbn [negb olist app].
+      eexists _, _. split; [reflexivity|].
+      assert (V : cnt st4 = cnt st3 /\ cell st4 = cell st3 /\ row_nil st4 = row_nil st3 /\
+                  m_f2g st4 = m_f2g st3 /\ m_heap st4 = m_heap st3)
+        by (destruct Nshape as [->| ->]; repeat split).
+      destruct V as (V1 & V2 & V3 & V4 & V5).
+      unfold iterJ. rewrite V1, V2, V3, V4, V5. splits; auto.
+      * intros x y. rewrite C3. subst st2. autorewrite with mxv. rewrite Jcell.
+        destruct ((x =? r) && (y =? c)) eqn:P.
+        -- replace (pltb x y r (c + 1)) with true by (unfold pltb; lia). reflexivity.
+        -- replace (pltb x y r (c + 1)) with (pltb x y r c) by (unfold pltb; lia). reflexivity.
+      * intros x. unfold cnt at 1. rewrite Fcn. fold (cnt st2 x). rewrite K2. pose proof (cnt0_bounds st0 x I).
+        destruct (Z.eqb_spec x r) as [->|N]; [rewrite Kr; dif; lia|]. rewrite Jcnt. dif; lia.
+      * intros x. rewrite N3. unfold cnt at 1. rewrite Fcn. fold (cnt st2 x). rewrite K2.
+        subst st2. autorewrite with mxv.
+        destruct (Z.eqb_spec x r) as [->|N]; [rewrite Hnil; lia|]. apply Jnil.
+      * intros x. rewrite Ff. subst st2. fields. rewrite zget_zdel, Jf.
+        destruct (Z.eqb_spec x fd) as [->|N].
+        -- rewrite Hg. cbn. replace (pltb r c r (c + 1)) with true by (unfold pltb; lia). reflexivity.
+        -- destruct (zget (m_f2g st0) x) as [g|] eqn:Eg; [|reflexivity].
+           destruct (pltb (g_row g) (g_col g) r c) eqn:P1, (pltb (g_row g) (g_col g) r (c + 1)) eqn:P2;
+             try reflexivity; unfold pltb in *; [lia|].
+           exfalso. destruct (inv_f2g _ _ _ I _ _ Eg) as (_ & id0 & Hc0 & Hh0).
+           assert (g_row g = r /\ g_col g = c) as (E1 & E2) by lia. rewrite E1, E2, E in Hc0.
+           inversion Hc0; subst id0. rewrite Hh in Hh0. inversion Hh0. congruence.
+      * rewrite Fh. exact Jh.
+  - (* an empty cell: nothing happens *)
+    cbn [olist app]. exists st, n. split; [reflexivity|].
+    assert (Hdead : cnt st0 r <= c).
+    { destruct (Z_lt_le_dec c (cnt st0 r)) as [L|L]; [|exact L]. exfalso.
+      apply (live_iff_cnt st0 r c I) in L; auto. }
+    unfold iterJ. splits; auto.
+    + intros x y. rewrite Jcell.
+      destruct (pltb x y r c) eqn:P1, (pltb x y r (c + 1)) eqn:P2; try reflexivity; unfold pltb in *; [lia|].
+      assert (x = r /\ y = c) as (-> & ->) by lia. exact E.
+    + intros x. rewrite Jcnt. pose proof (cnt0_bounds st0 x I). difs; lia.
+    + intros x. rewrite Jf. destruct (zget (m_f2g st0) x) as [g|] eqn:Eg; [|reflexivity].
+      destruct (pltb (g_row g) (g_col g) r c) eqn:P1, (pltb (g_row g) (g_col g) r (c + 1)) eqn:P2;
+        try reflexivity; unfold pltb in *; [lia|].
+      exfalso. destruct (inv_f2g _ _ _ I _ _ Eg) as (_ & id0 & Hc0 & _).
+      assert (g_row g = r /\ g_col g = c) as (E1 & E2) by lia. rewrite E1, E2, E in Hc0. discriminate.
+    + rewrite Jrow. destruct (pltb 0 0 r c) eqn:P1, (pltb 0 0 r (c + 1)) eqn:P2; try reflexivity; unfold pltb in *; [lia|].
+      assert (r = 0 /\ c = 0) as (-> & ->) by lia.
+      pose proof (inv_cnt _ _ _ I 0) as C. pose proof (inv_next _ _ _ I). unfold cnt_at in C. dif_in C; lia.
+    + rewrite Jcol. destruct (pltb 0 0 r c) eqn:P1, (pltb 0 0 r (c + 1)) eqn:P2; try reflexivity; unfold pltb in *; [lia|].
+      assert (r = 0 /\ c = 0) as (-> & ->) by lia.
+      pose proof (inv_cnt _ _ _ I 0) as C. pose proof (inv_next _ _ _ I). unfold cnt_at in C. dif_in C; lia.
+Qed.
+
+Lemma visit_all_cols : forall st0 m k r, inv st0 -> (forall fd, del_pred m k fd = true) -> 0 <= r ->
+  forall (len : nat) c st vis n, iterJ st0 st r c -> 0 <= c -> c + Z.of_nat len <= COL ->
+  exists st' n',
+    fold_left (mx_visit ROW COL m k (-1) r) (zseq_aux len c) (Ret (st, vis, n, false)) =
+      Ret (st', rev (flat_map (fun y => olist (cell st0 r y)) (zseq_aux len c)) ++ vis, n', false) /\
+    iterJ st0 st' r (c + Z.of_nat len).
+Proof.
+  intros st0 m k r I Hp Hr. induction len as [|len IH]; intros c st vis n J Hc Hle.
+  - exists st, n. split; [reflexivity|]. replace (c + Z.of_nat 0) with c by lia. exact J.
+  - cbn [zseq_aux fold_left flat_map].
+    destruct (visit_all_step st0 st m k r c vis n I Hp J Hr) as (st1 & n1 & E1 & J1); [lia|].
+    rewrite E1. destruct (IH (c + 1) st1 (olist (cell st0 r c) ++ vis) n1 J1) as (st2 & n2 & E2 & J2); [lia..|].
+    exists st2, n2. split.
+    + rewrite E2. rewrite rev_app_distr, <- app_assoc. f_equal. f_equal.
+      destruct (cell st0 r c); reflexivity.
+    + replace (c + Z.of_nat (S len)) with (c + 1 + Z.of_nat len) by lia. exact J2.
+Qed.
+
+Lemma visit_all_rows : forall st0 m k, inv st0 -> (forall fd, del_pred m k fd = true) ->
+  forall (len : nat) r st vis n, iterJ st0 st r 0 -> 0 <= r -> r + Z.of_nat len <= ROW ->
+  exists st' n',
+    fold_left (mx_visit_row ROW COL m k (-1) (m_table st0)) (zseq_aux len r) (Ret (st, vis, n, false)) =
+      Ret (st', rev (flat_map (row_ids st0) (zseq_aux len r)) ++ vis, n', false) /\
+    iterJ st0 st' (r + Z.of_nat len) 0.
+Proof.
+  intros st0 m k I Hp. induction len as [|len IH]; intros r st vis n J Hr Hle.
+  - exists st, n. split; [reflexivity|]. replace (r + Z.of_nat 0) with r by lia. exact J.
+  - cbn [zseq_aux fold_left flat_map]. unfold mx_visit_row at 2.
+    pose proof (cnt0_bounds st0 r I) as Hb.
+    destruct (zget (m_table st0) r) as [rowm|] eqn:Et.
+    + destruct (visit_all_cols st0 m k r I Hp Hr (Z.to_nat COL) 0 st vis n J) as (st1 & n1 & E1 & J1); [lia..|].
+      fold (zseq 0 COL) in E1. rewrite E1. fold (row_ids st0 r).
+      assert (J1' : iterJ st0 st1 (r + 1) 0).
+      { apply (iterJ_shift st0 st1 r (0 + Z.of_nat (Z.to_nat COL))); auto; lia. }
+      destruct (IH (r + 1) st1 (rev (row_ids st0 r) ++ vis) n1 J1') as (st2 & n2 & E2 & J2); [lia..|].
+      exists st2, n2. split.
+      * rewrite E2. rewrite rev_app_distr, <- app_assoc. reflexivity.
+      * replace (r + Z.of_nat (S len)) with (r + 1 + Z.of_nat len) by lia. exact J2.
+    + assert (Hz : cnt st0 r = 0).
+      { apply (inv_nil _ _ _ I). unfold row_nil. rewrite Et. reflexivity. }
+      assert (Hrow : row_ids st0 r = []).
+      { unfold row_ids. assert (forall c, cell st0 r c = None) as Hc by (intros; unfold cell; rewrite Et; reflexivity).
+        induction (zseq 0 COL) as [|c cs IHc]; cbn; [reflexivity|]. rewrite Hc. exact IHc. }
+      assert (J1' : iterJ st0 st (r + 1) 0) by (apply (iterJ_shift st0 st r 0); auto; lia).
+      destruct (IH (r + 1) st vis n J1') as (st2 & n2 & E2 & J2); [lia..|].
+      exists st2, n2. split.
+      * rewrite E2, Hrow. reflexivity.
+      * replace (r + Z.of_nat (S len)) with (r + 1 + Z.of_nat len) by lia. exact J2.
+Qed.
+
+(* iterate with a visitor that removes every visited connection *)
+Lemma mx_iterate_all : forall st0 m k, inv st0 -> (forall fd, del_pred m k fd = true) ->
+  exists st', mx_iterate ROW COL st0 m k (-1) = Ret (st', live_ids st0) /\
+    inv st' /\ mat_equiv st' mx_init /\ (forall fd, mx_get st' fd = None) /\ population COL st' = 0.
+Proof.
+  intros st0 m k I Hp. unfold mx_iterate.
+  destruct (visit_all_rows st0 m k I Hp (Z.to_nat ROW) 0 (set_dc st0 true) [] 0) as (st1 & n1 & E1 & J1);
+    [apply iterJ_init; exact I|lia..|].
+  fold (zseq 0 ROW) in E1. change (m_table (set_dc st0 true)) with (m_table st0). rewrite E1.
+  fold (live_ids st0). rewrite app_nil_r, rev_append_nil, rev_involutive.
+  eexists. split; [reflexivity|].
+  replace (0 + Z.of_nat (Z.to_nat ROW)) with ROW in J1 by lia.
+  destruct J1 as (Jdc & Jcell & Jcnt & Jnil & Jf & Jh & Jrow & Jcol).
+  pose proof (inv_next _ _ _ I) as (Hrow & Hcol & Hfull).
+  assert (Hcell : forall x y, cell (set_dc st1 false) x y = None).
+  { intros. autorewrite with mxv. rewrite Jcell. destruct (pltb x y ROW 0) eqn:P; [reflexivity|].
+    apply cell_none_out; auto. unfold pltb, plt in *. lia. }
+  assert (Hcnt : forall x, cnt (set_dc st1 false) x = 0).
+  { intros. autorewrite with mxv. rewrite Jcnt. pose proof (cnt0_bounds st0 x I).
+    pose proof (inv_cnt _ _ _ I x) as C. unfold cnt_at in C. dif; dif_in C; lia. }
+  assert (Hnil : forall x, row_nil (set_dc st1 false) x = true).
+  { intros. autorewrite with mxv. apply Jnil. apply (Hcnt x). }
+  assert (Hf : forall fd, zget (m_f2g (set_dc st1 false)) fd = None).
+  { intros. fields. rewrite Jf. destruct (zget (m_f2g st0) fd) as [g|] eqn:Eg; [|reflexivity].
+    pose proof (f2g_in_range _ _ _ I Eg). replace (pltb (g_row g) (g_col g) ROW 0) with true by (unfold pltb; lia).
+    reflexivity. }
+  assert (Hr : m_row (set_dc st1 false) = 0) by (fields; rewrite Jrow; replace (pltb 0 0 ROW 0) with true by (unfold pltb; lia); reflexivity).
+  assert (Hc : m_col (set_dc st1 false) = 0) by (fields; rewrite Jcol; replace (pltb 0 0 ROW 0) with true by (unfold pltb; lia); reflexivity).
+  splits.
+  - constructor.
+    + reflexivity.
+    + rewrite Hr, Hc. lia.
+    + intros x y. rewrite Hcell, Hr, Hc. unfold plt. split; [congruence|lia].
+    + intros x. rewrite Hcnt, Hr, Hc. unfold cnt_at. dif; lia.
+    + intros x. rewrite Hnil, Hcnt. tauto.
+    + intros x y i. rewrite Hcell. discriminate.
+    + intros fd g. rewrite Hf. discriminate.
+  - unfold mat_equiv. rewrite Hr, Hc. splits; try reflexivity.
+    + intros x. rewrite Hcnt, cnt_init. reflexivity.
+    + intros x. rewrite Hnil, nil_init. reflexivity.
+    + intros x y. rewrite Hcell, cell_init. reflexivity.
+    + intros fd. rewrite Hf. cbn. rewrite zget_zempty. reflexivity.
+  - intros fd. unfold mx_get. rewrite Hf. reflexivity.
+  - unfold population. rewrite Hr, Hc. lia.
+Qed.
+
+(* beyond capacity addConn drops the connection silently: nothing but the
+   connection object itself (which keeps a zero GFD) changes *)
+Lemma mx_add_full : forall st id fd, m_row st = ROW ->
+  mat_equiv (mx_add ROW COL st id fd) st /\
+  (forall fd', mx_get (mx_add ROW COL st id fd) fd' = mx_get st fd') /\
+  mx_load ROW (mx_add ROW COL st id fd) = mx_load ROW st.
+Proof.
+  intros st id fd H. unfold mx_add. replace (ROW <=? m_row st) with true by lia.
+  splits; try reflexivity. unfold mat_equiv. splits; reflexivity.
+Qed.
+
+Lemma population_full : forall st, inv st -> (m_row st < ROW <-> population COL st < ROW * COL).
+Proof.
+  intros st I. pose proof (inv_next _ _ _ I) as (A & B & C). unfold population. nia.
+Qed.
+
+End Inv.
